@@ -91,6 +91,15 @@ pub fn seeds(ver: Ver, w: usize) -> Vec<(String, AP)> {
         v.push(("AUTH".into(), AP::Auth { code: None, props: None }));
         v.push(("AUTH continue".into(), AP::Auth { code: Some(0x18), props: Some(vec![Prop { id: 0x15, val: PVal::Str(b"m".to_vec()) }]) }));
     }
+    // string contents beyond plain ASCII: shared-subscription forms and multi-byte UTF-8 (legal and illegal
+    // ones alike: a peer may send either)
+    for (i, f) in crate::genpk::special_filters().into_iter().enumerate() {
+        v.push((format!("SUBSCRIBE special filter #{i}"), AP::Subscribe { ver, pid: 1, props: vec![], entries: vec![(f.as_bytes().to_vec(), 0)] }));
+        v.push((format!("UNSUBSCRIBE special filter #{i}"), AP::Unsubscribe { ver, pid: 1, props: vec![], filters: vec![f.as_bytes().to_vec()] }));
+    }
+    for (i, n) in crate::genpk::special_names().into_iter().enumerate() {
+        v.push((format!("PUBLISH special topic #{i}"), AP::Publish { ver, dup: false, qos: 0, retain: false, topic: n.as_bytes().to_vec(), pid: None, props: vec![], payload: vec![] }));
+    }
     v
 }
 
@@ -236,6 +245,10 @@ pub fn stimuli(ver: Ver, w: usize, level: u8) -> Vec<(String, Vec<u8>)> {
     out.push(("CONNECT other version".into(), rc::encode(&AP::Connect { ver: other, clean: true, keep_alive: 0, client_id: b"c".to_vec(), will: None, user: None, pass: None, props: vec![] }, w)));
     for (n, ap) in &sd {
         let b = rc::encode(ap, w);
+        if level == 0 && n.contains(" special ") {
+            // special string contents: the frame itself is the stimulus in the quick tier
+            continue;
+        }
         if level == 0 && b.len() > 12 {
             // long seeds: only the length-consistent body truncations in the quick tier
             out.extend(mutations(n, &b, 0).into_iter().filter(|m| m.0.contains("~body")));
